@@ -211,6 +211,10 @@ def _mk():
     add("swv3", "{m}.sliding_window_view({0}, 3, axis=0)", "uf.np_swv({0}, 3, 0)", cond=W3, fam="window")
     add("swv2_sum", "{m}.sliding_window_view({0}, 2, axis=0).sum(axis=-1)", "uf.np_swv({0}, 2, 0).sum(axis=-1)", exact=False, cond=W2, fam="window")
     add("swv3_sum", "{m}.sliding_window_view({0}, 3, axis=0).sum(axis=-1)", "uf.np_swv({0}, 3, 0).sum(axis=-1)", exact=False, cond=W3, fam="window")
+    # explicit narrow result dtypes (the native window kernels accumulate wider)
+    add("swv3_sum_i4", "{m}.sliding_window_view({0}, 3, axis=0).sum(axis=-1, dtype='int32')", "uf.np_swv({0}, 3, 0).sum(axis=-1, dtype='int32')", cond=W3 + " and a0.dtype.kind=='i'", fam="window")
+    add("swv2_prod_i2", "{m}.sliding_window_view({0}, 2, axis=0).prod(axis=-1, dtype='int16')", "uf.np_swv({0}, 2, 0).prod(axis=-1, dtype='int16')", cond=W2 + " and a0.dtype.kind=='i'", fam="window")
+    add("swv3_sum_f4", "{m}.sliding_window_view({0}, 3, axis=0).sum(axis=-1, dtype='float32')", "uf.np_swv({0}, 3, 0).sum(axis=-1, dtype='float32')", exact=False, cond=W3 + " and a0.dtype.kind=='f'", fam="window")
     add("swv3_max", "{m}.sliding_window_view({0}, 3, axis=0).max(axis=-1)", "uf.np_swv({0}, 3, 0).max(axis=-1)", cond=W3, fam="window")
     add("swv2_mean", "{m}.sliding_window_view({0}, 2, axis=0).mean(axis=-1)", "uf.np_swv({0}, 2, 0).mean(axis=-1)", exact=False, cond=W2, fam="window")
     add("swvm1_3_min", "{m}.sliding_window_view({0}, 3, axis=-1).min(axis=-1)", "uf.np_swv({0}, 3, -1).min(axis=-1)", cond="a0.ndim>=1 and a0.shape[-1]>=3", fam="window")
